@@ -358,6 +358,18 @@ pub fn catalogue(big: bool, seed_pattern: u64) -> Vec<Desc> {
             c.push(Desc::Rl(BitsDesc::Runs { pairs: std::iter::repeat((1u64, 1u64)).take(k).collect(), tail: 3 }));
         }
     }
+    // Fill levels of the final block: f code units in all (two per (1, 1) run, three for a closing (8, 1) run), so
+    // that the last block holds 61..64 units, or exactly 63 behind a full block ("no padding in a final block
+    // that is not full" has a corner at one free unit, where no further run could start).
+    for f in [61usize, 62, 63, 64, 65, 127] {
+        if big || f == 63 || f == 127 {
+            let mut pairs: Vec<(u64, u64)> = std::iter::repeat((1u64, 1u64)).take(if f % 2 == 0 { f / 2 } else { (f - 3) / 2 }).collect();
+            if f % 2 == 1 {
+                pairs.push((8, 1));
+            }
+            c.push(Desc::Rl(BitsDesc::Runs { pairs, tail: 3 }));
+        }
+    }
     c.push(Desc::Rl(BitsDesc::Runs { pairs: vec![(0, 1 << 40), (1 << 50, 1 << 60)], tail: 1 << 61 }));
     c.push(Desc::Sparse(BitsDesc::Runs { pairs: vec![(0, 1), ((1 << 62) - 1, 2)], tail: (1 << 63) + 5 }));
     for v in [vec![], vec![0u64], vec![1, 0, 1, 0], vec![3, 1, 4, 1, 5, 9, 2, 6], vec![0, 65535, 1, 32768]] {
